@@ -617,6 +617,57 @@ theorem rewrite_wellformed_mysql_execute_partial (fo : FloatOps) (p p' : Packet)
   exact ⟨types, vals, h3, h4, setTypes_length _ _ _ _ h1, h2, h5⟩
 
 open AcraModel.Wire.My in
+/-- **execute_params_roundtrip (whole packet, read side).** On every COM_STMT_EXECUTE payload the specification encoder
+writes – 10-byte head, NULL bitmap, new-params-bound flag, `n ≥ 1` (type, unsigned-flag) pairs, then the wire values of
+the non-NULL parameters, each well-formed for its type (fixed-width numerics with their storage width, everything else a
+length-encoded string) – `GetBindParameters` returns exactly the specification's parameter list: parameter `i` is NULL iff
+bit `i` of the bitmap is set, every other parameter is read at the right offset with exactly its wire length, integers as
+their signed decimal text, strings as their bytes. (The value loop is assembled by induction over the parameter list with
+the bitmap; this was covered by correspondence only before.) -/
+theorem execute_params_roundtrip (fo : FloatOps) (head : Bytes) (types : List (Nat × Nat)) (vals : List (Option Bytes))
+    (hh : head.length = 10) (hl : types.length = vals.length) (hn : 0 < vals.length)
+    (hty : ∀ tf ∈ types, tf.1 < 256)
+    (hw : ∀ (j t f : Nat) (v : Bytes), types[j]? = some (t, f) → vals[j]? = some (some v) → WireOk t v) :
+    getBindParameters fo (encodeExecute head types vals) vals.length = .ok (some (boundAll fo types vals)) ∧
+    (boundAll fo types vals).length = vals.length ∧
+    (∀ (j t f : Nat), types[j]? = some (t, f) → vals[j]? = some none → (boundAll fo types vals)[j]? = some ⟨t, none⟩) ∧
+    (∀ (j t f : Nat) (v : Bytes), types[j]? = some (t, f) → vals[j]? = some (some v) →
+      (boundAll fo types vals)[j]? = some (boundOf fo t (some v))) := by
+  refine ⟨getBindParameters_encodeExecute fo head types vals hh hl hn hty hw, ?_, ?_, ?_⟩
+  · clear hw hty hn hh
+    induction vals generalizing types with
+    | nil => cases types <;> rfl
+    | cons v vs ih =>
+      match types, hl with
+      | tf :: ts, hl => simp [boundAll, ih ts (by simpa using hl)]
+  · clear hw hty hn hh
+    induction vals generalizing types with
+    | nil => intro j t f _ h; simp at h
+    | cons v vs ih =>
+      match types, hl with
+      | tf :: ts, hl =>
+        intro j t f h1 h2
+        cases j with
+        | zero =>
+          simp only [List.getElem?_cons_zero, Option.some.injEq] at h1 h2
+          subst h1; subst h2
+          rfl
+        | succ j => simpa [boundAll] using ih ts (by simpa using hl) j t f (by simpa using h1) (by simpa using h2)
+  · clear hw hty hn hh
+    induction vals generalizing types with
+    | nil => intro j t f v _ h; simp at h
+    | cons v vs ih =>
+      match types, hl with
+      | tf :: ts, hl =>
+        intro j t f x h1 h2
+        cases j with
+        | zero =>
+          simp only [List.getElem?_cons_zero, Option.some.injEq] at h1 h2
+          subst h1; subst h2
+          rfl
+        | succ j => simpa [boundAll] using ih ts (by simpa using hl) j t f x (by simpa using h1) (by simpa using h2)
+
+open AcraModel.Wire.My in
 /-- **Counterexample (known finding `my-execute-sign-flag`).** "Fields that were not transformed keep their exact
 bytes" fails for the unsigned flag: in an execute whose second (string) parameter is changed, the untouched first
 parameter – LONG, flagged unsigned (0x80), bytes ff ff ff ff = 4294967295 – is sent on with the flag 0x00 (signed):
@@ -848,6 +899,15 @@ example : ∃ s : ColSpec, s.Ok ∧ s.ext = some [0, 4, 106, 115, 111, 110] ∧ 
        rcases hb with rfl | rfl | rfl | rfl | hb <;> first | decide | exact absurd hb (by simp),
     by intro e he; cases he; decide, by decide, by decide, by decide, by decide, by decide,
     by intro d hd; cases hd; decide⟩, rfl, rfl, by decide⟩
+
+open AcraModel.Wire.My in
+/-- non-vacuity of `execute_params_roundtrip`: three parameters – the string "A", NULL, the blob "BC" -/
+example : getBindParameters ⟨fun _ b => b, fun _ b => some b⟩
+      ([0x17, 1, 0, 0, 0, 0, 1, 0, 0, 0] ++ [2] ++ [1] ++ [0xfd, 0, 6, 0, 0xfc, 0] ++ [1, 65, 2, 66, 67]) 3
+    = .ok (some [⟨0xfd, some [65]⟩, ⟨6, none⟩, ⟨0xfc, some [66, 67]⟩]) ∧
+    encodeExecute [0x17, 1, 0, 0, 0, 0, 1, 0, 0, 0] [(0xfd, 0), (6, 0), (0xfc, 0)] [some [65], none, some [66, 67]]
+      = [0x17, 1, 0, 0, 0, 0, 1, 0, 0, 0] ++ [2] ++ [1] ++ [0xfd, 0, 6, 0, 0xfc, 0] ++ [1, 65, 2, 66, 67] := by
+  constructor <;> rfl
 
 open AcraModel.Wire.Pg in
 /-- non-vacuity of `rowdescription_rewrite_frame`: two columns, the second re-typed to int4 (OID 23) -/
